@@ -84,6 +84,17 @@ pub fn check(case: &Case, obs: &mut Obs) -> Verdict {
             return Verdict::Violated(format!("fill(text, &options) != wrap lines joined by the line ending: {:?} vs {:?}", f_ref, wab.join(e)));
         }
     }
+    // fill of the single parts: a text without a line break can take fill's own byte-length shortcut
+    for (part, wrapped) in [(a, &wa), (a2, &wa2)] {
+        let f = textwrap::fill(part, o.build());
+        obs.calls += 1;
+        if f != wrapped.join(e) {
+            return Verdict::Violated(format!("fill({:?}) = {:?} != wrap lines joined by the line ending {:?}", part, f, wrapped.join(e)));
+        }
+        if !part.contains('\n') && part.len() < o.width && o.ii.is_empty() {
+            obs.bump("fill_shortcut_taken");
+        }
+    }
     let filled = textwrap::fill(&ab, o.build());
     obs.calls += 1;
     if filled != wab.join(e) {
@@ -180,7 +191,7 @@ pub fn prop() -> Prop {
         panic_is_violation: false,
         budget: (900000, 24000000),
         extra: Some(extra),
-        required: &["huge_texts", "wrapped_paragraph", "empty_side", "multi_paragraph_side", "empty_indent_equals_wrap_b"],
+        required: &["fill_shortcut_taken", "huge_texts", "wrapped_paragraph", "empty_side", "multi_paragraph_side", "empty_indent_equals_wrap_b"],
         known: None,
     }
 }
